@@ -161,6 +161,11 @@ def concretize(prop, ob):
         # identifiers that differ only in letter case, sharing one object
         out.append(("model_sweep", {"length": 3, "focus": ["delete"], "contents": 1, "no_tag": True,
                                     "pids": ["doi:10.1/AB", "doi:10.1/ab"]}))
+    if short in METALAYER or short in ("_find_object", "_computehash"):
+        # (pid, format) pairs whose concatenations coincide: ('ab','c') and ('a','bc')
+        out.append(("model_sweep", {"length": 3, "metadata": True, "no_objects": True,
+                                    "focus": ["smeta"], "pids": ["ab", "a"], "fmts": ["c", "bc"],
+                                    "check_retrieve": True}))
     if short in METALAYER:
         out.append(("model_sweep", {"length": 3, "metadata": True, "no_objects": True,
                                     "explicit_default": True, "focus": ["dmeta"],
